@@ -28,7 +28,7 @@ that BREAKS this property while
     crash/fault at a particular point, a multi-step sequence of operations, an unusual input, or two
     cooperating sites that each look fine alone. Do NOT make a change that ordinary use exposes at once.
 Then write a demonstration (a small standalone Python program or pytest test) that FAILS with your change
-and PASSES on the unchanged code (verify both: use `git -C {wt} stash` / `stash pop`).
+and PASSES on the unchanged code (verify both; do NOT use `git stash`, it is shared between worktrees: save `git -C {wt} diff > {out}/patch.diff`, `git -C {wt} checkout -- .`, run, then `git -C {wt} apply {out}/patch.diff`).
 
 Deliver in {out}/ (create it):
   patch.diff   — `git -C {wt} diff` of your change (only the change, not the demo)
